@@ -44,7 +44,10 @@ def contents():
     b = "\n".join(bl) + "\n"
     assert len(b) == len(a) and b != a
     # "f": content "a" behind a UTF-8 byte-order mark (files saved by some editors); path and stream read the same text
-    return {"a": a, "u": u, "m": m, "c": c, "b": b, "f": "\ufeff" + a}
+    # "t": a structure with a non-covalently coupled system of three groups (1FTJ: Glu 193 and the two carboxylates of the
+    # bound glutamate): with -d the order in which the system is walked must not depend on the interpreter's hash seed
+    t = C.test_pdb_text("1FTJ-Chain-A")
+    return {"a": a, "u": u, "m": m, "c": c, "b": b, "f": "\ufeff" + a, "t": t}
 
 
 def options_for(cid, o, texts):
@@ -121,6 +124,8 @@ def run(ctx):
     systematic.append([{"c": "c", "o": "cB", "via": "single"}, {"c": "c", "o": "d", "via": "main1"}, {"c": "a", "o": "default", "via": "single"}])
     systematic.append([{"c": "f", "o": "default", "via": "single", "mode": "path"}, {"c": "f", "o": "default", "via": "single", "mode": "stream"},
                        {"c": "f", "o": "default", "via": "main1", "mode": "path"}])
+    for hs_ in (range(1, 9) if not ctx.thorough() else range(1, 25)):
+        systematic.append([{"c": "t", "o": "d", "via": "single", "mode": "path", "hs": hs_}])
     chosen = systematic + chosen
     texts = contents()
     files = {"custom.cfg": custom_cfg()}
@@ -141,7 +146,7 @@ def run(ctx):
             hfiles["propka.cfg"] = custom_cfg()      # a parameter file of the same name as the shipped one in the cwd
         jobs.append(("hist", {"inputs": texts, "files": hfiles, "steps": steps, "cwdname": cwdname, "hashperm": rng.choice([None, rng.randrange(10 ** 6)]),
                               "alloc": rng.randrange(0, 10 ** 6)},
-                     rng.choice([0, 1, 12345, rng.randrange(10 ** 6)])))
+                     s[0].get("hs", rng.choice([0, 1, 12345, rng.randrange(10 ** 6)]))))
     with ThreadPoolExecutor(max_workers=14) as ex:
         results = list(ex.map(lambda j: execute(j[1], j[2]), jobs))
     ref = {}
